@@ -629,6 +629,9 @@ def gen_result(rng, tier, status_class=None, hstyle=None, bstyle=None):
     bf, blen = gen_result_body(rng, bstyle, tier)
     res = {"kind": "ret", "status": status, "headers": gen_headers(rng, blen, hstyle)}
     res.update(bf)
+    if bstyle != "none" and rng.random() < 0.3:
+        # the kind of stream object the handler returns (the model knows only the bytes from its position on)
+        res["stream"] = rng.choice(["file", "file_offset", "file_offset", "bytesio_offset", "plain"])
     return res
 
 
